@@ -45,6 +45,8 @@ def check(repo: Repo, run: Run) -> None:
     mod = repo.module("kd_buf_parser")
     kb = repo.cls("kd_buf_parser", "KdBufParser")
     ks = consteval.evaluate(repo, mod, mod.constants.get("KEVENT_SIZE"))
+    if not isinstance(ks, int):
+        raise AnalysisError("kd_buf_parser.KEVENT_SIZE is missing or not a constant this analysis can evaluate")
     fn = repo.method("kd_buf_parser", "KdBufParser", "parse_v2")
     rec = interp.run(mod, fn, self_cls=kb)
     if rec.notes:
@@ -107,7 +109,10 @@ def check(repo: Repo, run: Run) -> None:
             bad_exit.append((kind, lineno, [sym.pretty(c)[:50] for c, _ in inner]))
     test_exit = lp.kind == "while" and lp_test is not None and render.norm_bool(lp_test)[1] \
         and streams.raw_valued(render.norm_bool(lp_test)[0], raw)
-    trivially_true = lp.kind == "while" and lp.test is not None and sym.truth(lp.test) is True
+    trivially_true = (lp.kind == "while" and lp.test is not None and sym.truth(lp.test) is True) or \
+        (lp.kind == "for" and lp.iter is not None and lp.iter.op == "call" and not lp.iter.a[2] and (
+            (lp.iter.a[0] == T("global", ("itertools.repeat",)) and len(lp.iter.a[1]) == 1)
+            or (lp.iter.a[0] == T("global", ("itertools.count",)))))         # an endless iterator: `while True` in other words
     ok = not bad_exit and ((good_exit and trivially_true) or (test_exit and not good_exit) or (test_exit and good_exit))
     run.ob("R1", MOD, "KdBufParser.parse_v2", "the only loop exit is an empty read", ok,
            "" if ok else f"loop exits: {bad_exit or 'none on empty read'} (loop test {sym.pretty(lp.test)[:60] if lp.test is not None else None}): "
@@ -212,12 +217,19 @@ def check(repo: Repo, run: Run) -> None:
     srec = interp.run(mod, sfn, self_cls=kb)
     tmap = param(sfn.args.args[1].arg)
     tp, pn = T("attr", (SELF, "threads_pids")), T("attr", (SELF, "pids_names"))
+    handed_over = [c for c in srec.calls if c.func.op == "attr" and c.func.a[1] in ("send", "throw") and c.func.a[0].op not in ("param",)]
+    if handed_over:
+        # the entries are sent to a coroutine (`table = self.thread_table(); table.send((tid, process))`): what happens to them
+        # there, and when the tables are cleared, is not followed
+        run.floor_failures.append(f"C02/R4: set_thread_map hands the entries to a coroutine ({sym.pretty(handed_over[0].func)[:60]}): "
+                                  f"how the shared tables are cleared and filled is not decided")
     loops = [lr for lr in srec.loops.values() if lr.kind == "for" and lr.iter == tmap]
     ok_loop = len(loops) == 1
-    run.ob("R4", MOD, "KdBufParser.set_thread_map", "one pass over the entries in order", ok_loop,
-           "set_thread_map does not iterate over the given thread map exactly once in order (reversed/sorted/filtered)",
-           line=sfn.lineno)
-    if ok_loop:
+    if not handed_over:
+        run.ob("R4", MOD, "KdBufParser.set_thread_map", "one pass over the entries in order", ok_loop,
+               "set_thread_map does not iterate over the given thread map exactly once in order (reversed/sorted/filtered)",
+               line=sfn.lineno)
+    if ok_loop and not handed_over:
         lp2 = loops[0]
         ent = lp2.target
         stores = [e for e in srec.effects if e.kind == "sub-store" and lp2.id in e.loops]
